@@ -63,7 +63,7 @@ def check(an, rep, tier):
     need_missing = False
     need_vld = False
     for r in before:
-        gs = paths.guards_of(fn.node, r)
+        gs = P.norm_guards(prog, fn, r)
         names = set()
         for t, pol in gs:
             if pol:
